@@ -48,13 +48,31 @@ func Terminates(info *types.Info, list []ast.Stmt) bool {
 			if cc.List == nil {
 				hasDefault = true
 			}
-			if !Terminates(info, cc.Body) {
+			if !Terminates(info, cc.Body) || endsInPlainBreak(cc.Body) {
 				return false
 			}
 		}
 		return hasDefault
+	case *ast.SelectStmt:
+		// a select blocks until one clause runs: control leaves the list when every clause does
+		// (an unlabelled break only leaves the select)
+		for _, c := range s.Body.List {
+			cc := c.(*ast.CommClause)
+			if !Terminates(info, cc.Body) || endsInPlainBreak(cc.Body) {
+				return false
+			}
+		}
+		return len(s.Body.List) > 0
 	}
 	return false
+}
+
+func endsInPlainBreak(list []ast.Stmt) bool {
+	if len(list) == 0 {
+		return false
+	}
+	b, ok := list[len(list)-1].(*ast.BranchStmt)
+	return ok && b.Tok == token.BREAK && b.Label == nil
 }
 
 // IsNoReturnCall recognises panic, os.Exit, log.Fatal*, (*testing.T).Fatal*.
